@@ -41,16 +41,32 @@ func (ex *Exec) assume(t *Term, origin string) {
 	ex.st.addFact(t, origin)
 }
 
+// bindOnly records the bindings an assumption would create, without adding it as a fact.
+func (ex *Exec) bindOnly(t *Term) {
+	n := len(ex.st.facts)
+	ex.assume(t, "")
+	ex.st.facts = ex.st.facts[:n]
+}
+
 func occurs(x, in *Term) bool {
-	if x == in {
-		return true
-	}
-	for _, a := range in.args {
-		if occurs(x, a) {
+	seen := map[*Term]bool{}
+	var walk func(t *Term) bool
+	walk = func(t *Term) bool {
+		if t == x {
 			return true
 		}
+		if seen[t] {
+			return false
+		}
+		seen[t] = true
+		for _, a := range t.args {
+			if walk(a) {
+				return true
+			}
+		}
+		return false
 	}
-	return false
+	return walk(in)
 }
 
 func (ex *Exec) allHavoc(t *Term) bool {
@@ -128,6 +144,13 @@ func (ex *Exec) freshResult(t types.Type, how string, name string, bind map[stri
 		return v
 	case "slice":
 		st := t.Underlying().(*types.Slice)
+		if strings.HasPrefix(how, "fresh:$") {
+			t, ok := bind[how[7:]].(*Term)
+			if !ok || !t.IsConst() {
+				ex.unsupported("result length %s is not a constant at this call", how[7:])
+			}
+			how = "fresh:" + t.val.String()
+		}
 		if strings.HasPrefix(how, "fresh:") {
 			alts := strings.Split(how[6:], "|")
 			pick := alts[len(alts)-1]
@@ -252,6 +275,14 @@ func (ex *Exec) applyContract(fc *FuncContract, fr *FuncRef, args []Value, at as
 		}
 		ex.oblige("call", site+"#pre:"+name, g, rq.Text)
 	}
+	// a callee that may panic: the caller's path ends there when its panic condition holds
+	if fc.Panics != nil {
+		pc := ctx.term(fc.Panics.Expr)
+		if ex.decide(pc, "callee panics") {
+			ex.reachedPanic(at)
+			panic(pathEnd{"callee panic"})
+		}
+	}
 	// havoc frame
 	for _, m := range fc.Modifies {
 		if id, ok := m.(*ast.Ident); ok {
@@ -297,12 +328,23 @@ func (ex *Exec) applyContract(fc *FuncContract, fr *FuncRef, args []Value, at as
 	}
 	bindResults(vars, res)
 	actx := &SpecCtx{ex: ex, vars: vars, old: old, pkg: fr.Pkg, assume: true}
-	// derived clauses first: they are the most abstract statements and are what gets bound to the fresh values
-	for i := len(fc.Derives) - 1; i >= 0; i-- {
-		en := fc.Derives[i]
-		ex.assume(actx.term(en.Expr), site+"#"+en.Name)
+	// pass 1: bindings only, most abstract statements (derived clauses) first
+	for _, en := range fc.Derives {
+		ex.bindOnly(actx.term(en.Expr))
 	}
 	for _, en := range fc.Ensures {
+		if !en.Internal {
+			ex.bindOnly(actx.term(en.Expr))
+		}
+	}
+	// pass 2: facts, with every term resolved through the bindings
+	for _, en := range fc.Ensures {
+		if en.Internal {
+			continue
+		}
+		ex.assume(actx.term(en.Expr), site+"#"+en.Name)
+	}
+	for _, en := range fc.Derives {
 		ex.assume(actx.term(en.Expr), site+"#"+en.Name)
 	}
 	return pack(res)
